@@ -244,7 +244,8 @@ fn main() {
     //               n = 3 spherical all, hyperbolic every 8th; n = 4 every 32nd
     let mut prng = ctx.rng(1717);
     let off = prng.below(64);
-    let mut pserial = 0usize;
+    // one serial per family, so that the strides sample each family evenly
+    let mut serials = [0usize; 2];
     for n in 1..=6 {
         let sets = if n <= 3 { labelled(2, n) } else { classes(2, n) };
         for t in &sets {
@@ -269,7 +270,9 @@ fn main() {
                         }
                     }
                     for (kind, p) in items {
-                        pserial += 1;
+                        let si = if kind == "mirror" { 0 } else { 1 };
+                        serials[si] += 1;
+                        let pserial = serials[si];
                         let stride = match (th, n, cls) {
                             (_, 1..=3, "euc") => 1,
                             (true, _, "euc") => 1,
